@@ -91,7 +91,8 @@ CLAIMED = {
          "are bound to owner objects, the repaired copy() keeps every callback bound to its own event, so operations on one "
          "event never change another (frame theorem); a fresh copy taken at any point of any history shows exactly the content "
          "of its original in its views and in its XML (invariant: every cached view and XML group holds each name once, kept "
-         "by all operations and by copying; refuted without it); the pre-fix deepcopy is refuted. The model is tied to EDXMLEvent, "
+         "by all operations and by copying; refuted without it), and every later history of mutations of the copy behaves as "
+         "the model run from the original's state; the pre-fix deepcopy is refuted. The model is tied to EDXMLEvent, "
          "EventElement and ParsedEvent by lock-step runs of random and exhaustive short histories (with copies), comparing "
          "mapping view, getters, get_element() and == after every step with an independent Python dictionary-of-sets oracle "
          "and the final state / raise flags with the Gallina models.",
